@@ -446,6 +446,10 @@ Proof.
   - apply same_rows_refl.
 Qed.
 
+Lemma handle_frame_topo sh c e :
+  shuffles_ok sh -> ev_peer e <> "" -> topo (h_cat (handle sh c e)) = topo c.
+Proof. intros Hsh Hq. apply (handle_frame sh c e "" Hsh Hq). reflexivity. Qed.
+
 Lemma handle_ops_peer sh c e :
   shuffles_ok sh -> Forall (fun o => op_peer o = ev_peer e) (h_ops (handle sh c e)).
 Proof.
